@@ -376,6 +376,24 @@ func runC12(r *vf.Runner) {
 			r.Case(c, func(t *vf.T) { runC12case(t, c) })
 		}
 	}
+	// one Func that redistributes the same result twice, in ways that cannot share tasks
+	// (different widths, different combiners, with and without combiner)
+	twice := [][2]PNode{
+		{{Op: "reduce", In: []int{0}, Fold: "sum"}, {Op: "reduce", In: []int{0}, Fold: "max"}},
+		{{Op: "reshard", In: []int{0}, Shards: 2}, {Op: "reshard", In: []int{0}, Shards: 3}},
+		{{Op: "reshard", In: []int{0}, Shards: 1}, {Op: "reduce", In: []int{0}, Fold: "min"}},
+		{{Op: "reshuffle", In: []int{0}}, {Op: "reshard", In: []int{0}, Shards: 5}},
+		{{Op: "repartition", In: []int{0}, Salt: 4}, {Op: "reduce", In: []int{0}, Fold: "sum"}},
+		{{Op: "fold", In: []int{0}, Salt: 4}, {Op: "reshard", In: []int{0}, Shards: 2}},
+	}
+	for _, pair := range twice {
+		for _, conf := range []sessConf{localP4, bmk} {
+			base := Spec{Nodes: []PNode{{Op: "const", Shards: 3, Rows: 129, Out: []string{"int", "int64"}, Salt: 3, Mod: 10}, {Op: "filter", In: []int{0}, P: 5, Salt: 2}}}
+			d := Spec{Nodes: []PNode{{Op: "arg", Arg: 0}, pair[0], pair[1], {Op: "cogroup", In: []int{1, 2}}}}
+			c := c12case{Conf: conf, Base: base, Ops: []c12op{{Op: "derive", R: 0, Spec: &d}, {Op: "scan", R: 1, K: 2}, {Op: "discard", R: 0}, {Op: "derive", R: 0, Spec: &d}, {Op: "scan", R: 0}}}
+			r.Case(c, func(t *vf.T) { runC12case(t, c) })
+		}
+	}
 	for i := 0; i < nl+nb; i++ {
 		conf := localP4
 		if i >= nl {
